@@ -176,6 +176,34 @@ theorem arcswap_correct_def {c : Coupe.ArcSwap.Cfg} {p₀ : List Nat}
   rw [loads_getD _ _ hk, loads_getD _ _ hk]
   exact h5 k hk
 
+/-- End to end, C15 + C16: KernighanLin is handed the rows of a valid zero-based symmetric CSR
+view `m`; the metric `edge_cut` of the repository (sprs specialisation, C16's model) evaluated on
+`m` does not panic on either partition and is not larger on the output than on the input. -/
+theorem kl_cut_le_metric (cfg : Coupe.Metrics.Cfg) (m : Coupe.Metrics.Csr) (wlen : Nat)
+    (mp mf : Option Nat) (mb : Nat) (p out : List Nat)
+    (hv : m.Valid) (hoff : m.offset = 0) (hp : m.n ≤ p.length) (hs : Symm (rowsOf m))
+    (h : Coupe.Kl.run {} (rowsOf m) wlen mp mf mb p = .ok out) :
+    ∃ a b, Coupe.Metrics.edgeCutSprs? cfg m out = .val a ∧
+      Coupe.Metrics.edgeCutSprs? cfg m p = .val b ∧ a ≤ b := by
+  have hlen := (Coupe.Kl.kl_ids (rowsOf m) wlen mp mf mb p out h).1
+  exact ⟨_, _, (metrics_edgeCutSprs_eq_def cfg m out hv hoff (by omega) hs).1,
+    (metrics_edgeCutSprs_eq_def cfg m p hv hoff hp hs).1,
+    kl_cut_le_def (rowsOf m) wlen mp mf mb p out (sorted_of_csr_valid hv) hs h⟩
+
+/-- End to end, C07 + C16: the same for FiducciaMattheyses. -/
+theorem fm_cut_le_metric (cfg : Coupe.Metrics.Cfg) (m : Coupe.Metrics.Csr)
+    (ch : Nat → Nat → Nat) (prm : Coupe.Fm.Params) (capOpt : Option Int)
+    (ws : List Int) (p : List Nat) (r : Coupe.Fm.Result)
+    (hv : m.Valid) (hoff : m.offset = 0) (hp : m.n ≤ p.length) (V : Coupe.Fm.Valid (rowsOf m))
+    (h : Coupe.Fm.run ch prm capOpt (rowsOf m) ws p = .ok r) :
+    ∃ a b, Coupe.Metrics.edgeCutSprs? cfg m r.part = .val a ∧
+      Coupe.Metrics.edgeCutSprs? cfg m p = .val b ∧ a ≤ b := by
+  have hlen := (Coupe.Fm.fm_ids ch prm capOpt (rowsOf m) ws p r h).1
+  have hs := symm_of_fm_valid V
+  exact ⟨_, _, (metrics_edgeCutSprs_eq_def cfg m r.part hv hoff (by omega) hs).1,
+    (metrics_edgeCutSprs_eq_def cfg m p hv hoff hp hs).1,
+    fm_cut_le_def ch prm capOpt (rowsOf m) ws p r V h⟩
+
 /-! ## the part loads -/
 
 /-- C07: the model's `load` is `Coupe.load`, and its pair of part weights is `Coupe.loads … 2`. -/
@@ -185,12 +213,6 @@ theorem fm_load_eq_def (ws : List Int) (ids : List Nat) :
   refine ⟨Coupe.Fm.load_eq_basic ws ids, ?_⟩
   rw [Coupe.Fm.load_eq_basic, Coupe.Fm.load_eq_basic]
   rfl
-
-/-- C07's cap in terms of `Coupe.load`. -/
-def fmCap (capOpt : Option Int) (ws : List Int) (p : List Nat) : Int :=
-  match capOpt with
-  | some c => c
-  | none => max (Coupe.load ws p 0) (Coupe.load ws p 1)
 
 /-- C07 `fm_cap` over THE loads. -/
 theorem fm_cap_def (ch : Nat → Nat → Nat) (prm : Coupe.Fm.Params) (capOpt : Option Int)
@@ -288,8 +310,10 @@ example : Coupe.ArcSwap.Hyp Coupe.ArcSwap.exCfg [0, 1, 0] ∧
 the other models would receive, and both code paths return `cutDef = 4`. -/
 example :
     let m : Coupe.Metrics.Csr := ⟨[0, 2, 3, 3, 4], [1, 3, 0, 0], [4, 6, 4, 6]⟩
-    rowsOf m = [[(1, 4), (3, 6)], [(0, 4)], [], [(0, 6)]] ∧ Symm (rowsOf m) ∧
-      cutDef (rowsOf m) [0, 1, 1, 0] = 4 := by decide
+    m.Valid ∧ m.offset = 0 ∧
+      rowsOf m = [[(1, 4), (3, 6)], [(0, 4)], [], [(0, 6)]] ∧ Symm (rowsOf m) ∧
+      cutDef (rowsOf m) [0, 1, 1, 0] = 4 ∧
+      Coupe.Metrics.edgeCutSprs? Coupe.Metrics.Cfg.current m [0, 1, 1, 0] = .val 4 := by decide
 
 end Coupe.Bridge
 
@@ -308,6 +332,8 @@ end Coupe.Bridge
 #print axioms Coupe.Bridge.arcswap_cut_acct_def
 #print axioms Coupe.Bridge.arcswap_gain_pos_def
 #print axioms Coupe.Bridge.arcswap_correct_def
+#print axioms Coupe.Bridge.kl_cut_le_metric
+#print axioms Coupe.Bridge.fm_cut_le_metric
 #print axioms Coupe.Bridge.fm_load_eq_def
 #print axioms Coupe.Bridge.fm_cap_def
 #print axioms Coupe.Bridge.arcswap_cap_def
